@@ -67,6 +67,15 @@ func (b *payPerInterval) OnClient(node store.Node) error {
 	return nil
 }
 
+// refund takes credit back from peers when the update that granted it fails
+// before the client could be charged for it.
+func (b *payPerInterval) refund(peers []store.Node, credit *big.Int) {
+	debit := new(big.Int).Neg(credit)
+	for _, peer := range peers {
+		b.Store.AddNodeBalance(peer.ID, debit)
+	}
+}
+
 // OnUpdate takes a node instance (with a LastSeen timestamp of the previous
 // update) and the current active peers.
 func (b *payPerInterval) OnUpdate(node store.Node, peers []store.Node) (store.Balance, error) {
@@ -87,12 +96,17 @@ func (b *payPerInterval) OnUpdate(node store.Node, peers []store.Node) (store.Ba
 	}
 
 	total := new(big.Int)
-	for _, peer := range peers {
-		b.Store.AddNodeBalance(peer.ID, credit)
+	for i, peer := range peers {
+		if err := b.Store.AddNodeBalance(peer.ID, credit); err != nil {
+			// All or nothing: take back what was credited so far.
+			b.refund(peers[:i], credit)
+			return store.Balance{}, err
+		}
 		total.Add(total, credit)
 	}
 
 	if err := b.Store.AddNodeBalance(node.ID, new(big.Int).Neg(total)); err != nil {
+		b.refund(peers, credit)
 		return store.Balance{}, err
 	}
 	balance, err := b.Store.GetNodeBalance(node.ID)
